@@ -11,7 +11,8 @@ from .. import datasets_c09 as G
 ID = 'C09'
 RULE = ('generated dense dataset directories loaded through TemplateModel: integer templates / inverse whitening '
         'matrix / amplitudes / positions / features (exact regime), ids without spikes at the start, middle, END, both '
-        'ends, the two highest, all but one; curated (merge / split / move / gapped ids) and uncurated spike clusters; '
+        'ends, the two highest, all but one; curated (merge / split / move / gapped ids / a whole cluster renumbered to a fresh id: '
+        'fewer ids in use than max id + 1) and uncurated spike clusters; '
         'unit factors {1, 2, 0.5, 2.5}; rates {100, 1000, 25000, 30000}; feature stores full / subset / absent with '
         'rows whose positive part vanishes or sums to a power of two or neither; per-id amplitude sums divisible by the counts '
         'or not; peak-to-peak ties between channels and extreme-value ties between samples. '
@@ -110,6 +111,13 @@ def _tile(sem, n):
 def generate(tier, rng):
     cases = []
     # corpus ---------------------------------------------------------------------------------------------
+    # (0) curated cluster ids with an id WITHOUT spikes below the highest id in use (number of ids in use <
+    # max id + 1 = number of cluster waveforms): a whole cluster renumbered to a fresh id (what every merge / split
+    # in phy does), alone and combined with the other curation steps and with empty template ids
+    for o in [dict(curate_ops=['renumber'], empty='none'), dict(curate_ops=['renumber', 'renumber'], empty='none'),
+              dict(curate_ops=['merge'], empty='none', nt=3), dict(curate_ops=['gap'], empty='none'),
+              dict(curate_ops=['renumber', 'split'], empty='end'), dict(curate_ops=['split', 'renumber'], empty='start')]:
+        cases.append(_case(rng, curated=True, **o))
     # (a) the repaired defect: the highest template id has no spikes (uncurated: also through use='clusters')
     for nt in (2, 3, 4):
         for emp in ('end', 'tail2', 'most'):
@@ -330,6 +338,16 @@ def encode(case, obs):
     if obs[0] == 'crash':
         return 'InBad', 'ObsCrash'
     _, s, o = obs
+    if obs[0] == 'ok':
+        # the model's input is the DATASET (the files as written), not what the loader made of it: spike ids and
+        # amplitudes come from the generated dataset; the loaded n_templates / n_clusters are checked by the
+        # comparator against the number of stored waveforms
+        sem = case['inp']['sem']
+        s = dict(s)
+        s['st'] = [int(x) for x in sem['spike_templates']]
+        s['sc'] = [int(x) for x in (sem['spike_clusters'] if sem.get('spike_clusters') is not None else sem['spike_templates'])]
+        s['amps'] = [D.tok(float(a)) for a in sem['amplitudes']]
+        s['nspikes'] = int(sem['n_spikes'])
     if obs[0] == 'big':
         if not s['periodic']:
             raise ValueError('C09 regime: the tiled dataset did not load as a periodic one')
@@ -404,6 +422,10 @@ def dist(case, obs):
     st, nt = sem['spike_templates'], sem['n_templates']
     out.append('highest_template_empty=%s' % ((nt - 1) not in st))
     out.append('first_template_empty=%s' % (0 not in st))
+    sc = sem.get('spike_clusters')
+    if sc is not None:
+        out.append('cluster_ids_in_use_vs_max=%s' % ('equal' if len(set(sc)) == max(sc) + 1 else
+                                                     'fewer_by_%s' % min(max(sc) + 1 - len(set(sc)), 3)))
     if obs[0] != 'ok':
         out.append('outcome=crash:' + str(obs[1]))
         return out
